@@ -410,13 +410,15 @@ def streamBody (s : St) (sid : Nat) : AppOp → Partial
     | (s1, o1, some e) => (s1, o1, some e)
     | (s1, o1, none) => (s1, o1 ++ [.hasData], none)
   | .streamClosed abandon lib =>
+    -- `if event.stream_id not in self.streams: return` (already closed: reset by the client, or the connection closed)
+    if !s.streams.contains sid then (s, [], none) else
     match (if abandon && s.buffers.contains sid && s.streams.contains sid then resetAbandoned s sid lib else (s, [], none)) with
     | (s1, o1, some e) => (s1, o1, some e)
     | (s1, o1, none) =>
       let s2 := (closeStream s1 sid).1
       let idle := s2.streams.isEmpty
       (s2, o1 ++ (closeStream s1 sid).2 ++ (if idle && s2.terminated then [.connCall "close_connection" false, .flush] else [])
-            ++ [.upUpdated (if idle then some true else none)], none)
+            ++ (if s2.closed then [] else [.upUpdated (if idle then some true else none)]), none)
 
 /-- `stream_send(event)` for stream `sid`: the body inside `try … except <C04Sites.h2StreamSend>: return`.
     What the body did before it raised stays done. -/
